@@ -396,10 +396,17 @@ class FeatureModel(VariabilityModel):
         if feature is None:
             feature = self.root
         relations = []
-        for relation in feature.relations:
+        # Pre-order walk without recursion (a deep tree must not hit the recursion limit):
+        # the iterator on top yields the relations still to be listed at that level
+        pending = [iter(feature.relations)]
+        while pending:
+            relation = next(pending[-1], None)
+            if relation is None:
+                pending.pop()
+                continue
             relations.append(relation)
-            for _feature in relation.children:
-                relations.extend(self.get_relations(_feature))
+            pending.append(iter([child_relation for child in relation.children
+                                 for child_relation in child.relations]))
         return relations
 
     def get_features(self) -> list["Feature"]:
